@@ -3,6 +3,7 @@
 -/
 import ChessVerif.Model.Text
 import ChessVerif.Spec.Rules
+import ChessVerif.Lemmas.LegalShape
 namespace Chess.Props
 
 /-- C15 (quiet ⇔ neither capture nor promotion): for every non-castling move the "quiet" answer is exactly
@@ -36,6 +37,67 @@ theorem C15_capture_rules (p : Position) (m : Nat) (h : moveCastling m = 0) (hep
     moveIsCapture p m = (p.at (moveTo m) ≠ 0 || (kindOf (p.at (moveFrom m)) = PAWN && moveTo m = p.ep)) := by
   unfold moveIsCapture
   simp [h]
+
+/-- C15 (capture / quiet, FULL over the rules): on every well-formed position and for EVERY move legal under the rules,
+    the engine's `move_is_capture` is the rules' notion of a capture (target occupied, or en passant) and `move_is_quiet`
+    is "neither a capture nor a promotion" (castling counts as quiet) -/
+theorem C15_capture_quiet_full (p : Position) (m : Spec.SMove) (hwf : Spec.wf (absPos p) = true)
+    (hm : m ∈ Spec.legalMoves (absPos p)) :
+    moveIsCapture p (codeOf (absPos p) m) = Spec.isCaptureMove (absPos p) m ∧
+    moveIsQuiet p (codeOf (absPos p) m) = (!Spec.isCaptureMove (absPos p) m && decide (m.promo = 0)) := by
+  have ok := stepOK_of_legal _ hwf m hm
+  have hsrc : m.src < 64 := ok.src
+  have hdst : m.dst < 64 := ok.dst
+  obtain ⟨hpr7, _⟩ := ok.promo
+  have hepc := ok.ep
+  have hcas := ok.castle
+  by_cases hcs : kindOf (gd p.board m.src) = KING ∧ (m.dst = m.src + 2 ∨ m.dst + 2 = m.src)
+  · -- castling: never a capture, always quiet
+    obtain ⟨_, hpromo, hK, hQ⟩ := hcas hcs
+    have hcast : Spec.isCastle (absPos p).board m = true := (isCastle_iff _ _).2 hcs
+    have hmc : moveCastling (codeOf (absPos p) m) ≠ 0 := by
+      unfold codeOf; rw [if_pos hcast]
+      have cc := C16_castle_code_local
+      split
+      · rw [cc.1]; decide
+      · rw [cc.2]; decide
+    have hk1 : ¬ kindOf (gd p.board m.src) = PAWN := by rw [hcs.1]; decide
+    have hnotep : Spec.isEpCapture (absPos p) m = false := by
+      apply Bool.eq_false_iff.2; intro h; exact hk1 ((isEp_iff _ _).1 h).1
+    have hd0 : gd p.board m.dst = 0 := by
+      rcases hcs.2 with hd | hd
+      · rw [hd]; exact (hK hd).2.1
+      · have : m.dst = m.src - 2 := by omega
+        rw [this]; exact (hQ hd).2.1
+    have hcap : Spec.isCaptureMove (absPos p) m = false := by
+      rw [isCapture_eq, hnotep]
+      show (decide (gd p.board m.dst ≠ 0) || false) = false
+      simp [hd0]
+    rw [hcap]
+    obtain ⟨q1, q2⟩ := C15_castling p _ hmc
+    exact ⟨q2, by rw [q1]; simp [hpromo]⟩
+  · have hcast : Spec.isCastle (absPos p).board m = false := by
+      apply Bool.eq_false_iff.2; intro h; exact hcs ((isCastle_iff _ _).1 h)
+    have hcode : codeOf (absPos p) m = mkPromotion m.src m.dst m.promo := by unfold codeOf; rw [hcast]; rfl
+    obtain ⟨c1, c2, c3, c4⟩ := C16_encoding m.src m.dst m.promo hsrc hdst (by omega)
+    have hcapture : moveIsCapture p (mkPromotion m.src m.dst m.promo) = Spec.isCaptureMove (absPos p) m := by
+      unfold moveIsCapture
+      rw [c1, c2, c4, isCapture_eq]
+      show (decide (0 = 0) && (decide (gd p.board m.dst ≠ 0) || (decide (kindOf (gd p.board m.src) = PAWN) && decide (m.dst = p.ep)))) =
+        (decide (gd p.board m.dst ≠ 0) || Spec.isEpCapture (absPos p) m)
+      have hep : Spec.isEpCapture (absPos p) m = (decide (kindOf (gd p.board m.src) = PAWN) && decide (m.dst = p.ep)) := by
+        apply Bool.eq_iff_iff.2
+        rw [isEp_iff]
+        simp only [Bool.and_eq_true, decide_eq_true_eq]
+        constructor
+        · rintro ⟨a, b, _, _⟩; exact ⟨a, b⟩
+        · intro h
+          obtain ⟨e1, e2, _⟩ := hepc h
+          exact ⟨h.1, h.2, e1, e2⟩
+      rw [hep]; simp
+    rw [hcode]
+    refine ⟨hcapture, ?_⟩
+    rw [C15_quiet p _ c4, hcapture, c3]
 
 /-- the full statement (kept visible): on every legal move the three answers agree with what playing the move does.
     The check-giving part needs the attack-geometry bridge (DESIGN §6 C15) and is decided by the correspondence with
